@@ -86,7 +86,7 @@ func reorgClasses(cs *kit.CaseStats, oldTip, newTip *kit.TNode) (reverted int) {
 		for _, k := range n.Kinds {
 			cs.Class("reverted:" + k)
 			switch k {
-			case "v1form", "v1rev", "v1proof", "v2form", "v2rev", "v2renew", "v2proof", "v2expire", "v1sf", "v2sf":
+			case "v1form", "v1rev", "v1rev-eph", "v1proof", "v2form", "v2rev", "v2renew", "v2proof", "v2expire", "v1sf", "v2sf":
 				cs.NonTrivial()
 			}
 		}
